@@ -11,7 +11,7 @@ from .simfs import SimFile, SimPipe, SimFS
 
 class Outcome:
     __slots__ = ("kind", "value", "exc_type", "exc_text", "where", "steps", "items", "recno", "ctx",
-                 "stdout", "rc", "orig_type", "exc")
+                 "stdout", "rc", "orig_type", "exc", "errors")
 
     def __init__(self):
         self.kind = None      # 'dict' | 'liberr' | 'foreign' | 'budget' | 'stop' (readers) | 'rc' (tools)
@@ -27,6 +27,7 @@ class Outcome:
         self.rc = None
         self.orig_type = None
         self.exc = None
+        self.errors = []      # style 'continue': (records delivered before, record_number, context, original type)
 
     def brief(self):
         return {"kind": self.kind, "exc": self.exc_type, "where": self.where, "n": len(self.items or []),
@@ -101,7 +102,18 @@ def run_reader(image, reader, blocked, enc=None, cfg=None, limit=None, maxlen=No
                     o.items.append(x)
                     if len(o.items) > 200000:
                         raise steps.StepBudgetExceeded("unbounded iteration")
-                if style == "next":
+                if style == "continue":
+                    # the application catches the error of a bad record and carries on with the same reader
+                    it = iter(r)
+                    while len(o.errors) < 4:
+                        try:
+                            take(next(it))
+                        except StopIteration:
+                            break
+                        except m["MciIpmDataError"] as ex:
+                            o.errors.append((len(o.items), ex.record_number, ex.binary_context_data,
+                                             type(ex.ex).__name__ if getattr(ex, "ex", None) is not None else None))
+                elif style == "next":
                     it = iter(r)
                     while True:
                         try:
